@@ -620,6 +620,39 @@ func runC13(w *World, r *Report, tier string) {
 	}
 	r.Check(okRun, "R6", "xmpp.(*StreamManager).Run", w.pos(run.Pos()), "Run does not pair wg.Add(1) with Wait on success and Done on failure (found: "+seqR+")", "Add(1) ≺ connect ≺ Wait; Done on the failure return")
 
+	// ---- R2 (continued): the event ends the session's receive loop. A loop that reports the loss and then goes on
+	// reading survives the reconnection its handler has just performed: two receivers on the new connection, two
+	// Disconnected events at the next loss, two sessions.
+	{
+		recvFn := w.Func("xmpp.(*Client).recv")
+		isNP := w.isCallTo("stanza.NextPacket")
+		isDisc := w.isCallTo("xmpp.EventManager.disconnected")
+		bad := ""
+		nEv := 0
+		err := walkPaths(entryLoc(recvFn), nil, nil, 100000, func(path []ssa.Instruction, end pathEnd) {
+			at := indexOn(path, isDisc)
+			if at < 0 {
+				return
+			}
+			nEv++
+			again := false
+			for _, in := range path[at+1:] {
+				if isNP(in) {
+					again = true
+				}
+			}
+			if again || end == endCycle {
+				bad = "after announcing the disconnection (" + w.ipos(path[at]) + ") the receive loop goes round again: it keeps reading on whatever connection the handler has re-established"
+			}
+		})
+		cons := "xmpp.(*Client).recv→disconnected#ends-loop"
+		if err != nil {
+			r.Undecided("R2", cons, w.pos(recvFn.Pos()), err.Error())
+		} else {
+			r.Check(bad == "" && nEv > 0, "R2", cons, w.pos(recvFn.Pos()), bad, fmt.Sprintf("%d path(s) through the event, each leaves recv", nEv))
+		}
+	}
+
 	// ---- R8 (shared with C03.R2): the next attempt does not inherit the failed one's error
 	r.Rule("R8", "a Session reused for the next connection attempt starts clean: reading the stream features leaves s.err nil when the read succeeded (shared with C03.R2) — otherwise the attempt after a failed negotiation fails too, the session is dropped and the resumable state with it")
 	sessionErrCleared(w, r, "R8")
